@@ -25,7 +25,7 @@ def _user_exception_possible(r):
     """the run contains a legitimate source of a user exception (failing step, fail(), failing awaitable)"""
     if any(c['op'] == 'fail' and c['live'] for c in r.calls) or any(c['op'] == 'callsoon' and c['arg'] == ['raise'] for c in r.calls):
         return True
-    if any(c['op'] == 'complete' and c['arg'][1:2] in (['exc'], ['killed']) for c in r.calls):
+    if any(c['op'] == 'complete' and c['arg'][1:2] in (['exc'], ['killed'], ['cancelled']) for c in r.calls):
         return True
     return any(oc[0] == 'raise' for _, oc in r.prog['fns'].values())
 
@@ -268,7 +268,7 @@ def c05(r):
 
 
 def only_transparent_ops(r):
-    return all(c['op'] in ('pause', 'play', 'resume', 'complete') and not (c['op'] == 'complete' and c['arg'][1] in ('exc', 'killed')) for c in r.calls)
+    return all(c['op'] in ('pause', 'play', 'resume', 'complete') and not (c['op'] == 'complete' and c['arg'][1] in ('exc', 'killed', 'cancelled')) for c in r.calls)
 
 
 _REF = {}
@@ -381,7 +381,7 @@ def c10(r):
     for c in r.calls:
         if c['op'] == 'complete':
             f = int(c['arg'][0])
-            completed.setdefault(f, (c['arg'][1], int(c['arg'][2])) if c['arg'][1] != 'killed' else ('exc', 'KilledError'))
+            completed.setdefault(f, (c['arg'][1], int(c['arg'][2])) if c['arg'][1] not in ('killed', 'cancelled') else ('exc', 'KilledError'))
     fns = r.prog['fns']
     expect_ctx = {}
     for t in p._trace:
